@@ -2,7 +2,7 @@ import PebblesVerif.Driver.Util
 import PebblesVerif.Model.Errors
 import PebblesVerif.Model.QueryBatch
 import PebblesVerif.Model.GatewayFlow
-import PebblesVerif.Model.Merge
+import PebblesVerif.Model.ResultMerge
 import PebblesVerif.Model.InsertionPoints
 /-! Driver ops of the "faults" family (C09, C10): the decode path of one downstream exchange, the
 error algebra, the gateway's step order, the merge functions, FindInsertionPoints. The decode path
@@ -69,7 +69,7 @@ def handle : Handler
     let l := match (getObj? j "left").map toJ with | some (.obj kvs) => kvs | _ => []
     let r := match (getObj? j "right").map toJ with | some (.obj kvs) => kvs | _ => []
     let safe := Gen.QueryBatchFacts.facts.safeIdCompare
-    let res := if getStr j "mode" = "top" then Merge.mergeTop safe l r else Merge.mergeObj safe l r
+    let res := if getStr j "mode" = "top" then ResultMerge.mergeTop safe l r else ResultMerge.mergeObj safe l r
     some (match res with
       | .error w => obj [("outcome", "panic"), ("what", w)]
       | .ok m => obj [("outcome", "ok"), ("result", ofJ (.obj m))])
